@@ -401,7 +401,9 @@ func cmdCheck(args []string) {
 		rep := map[string]interface{}{"obligation": name, "property": *prop, "position": worst.o.Pos, "solver_status": worst.r.Status,
 			"solver_detail": worst.r.Detail, "model": worst.r.Model, "vc": worst.r.File}
 		suffix := " no-failing-input-found"
-		if worst.r.Status == "sat" && !g.cover {
+		// adapters that search a catalogue of inputs do not need the solver's model: they also run after a timeout
+		searchable := frByKey[g.fn] != nil && searchReplayable(frByKey[g.fn].Key) && strings.HasPrefix(g.kind, "post.")
+		if (worst.r.Status == "sat" || searchable) && !g.cover {
 			verdict, out, test := eng.replay(frByKey[g.fn], worst, *outDir)
 			rep["replay_verdict"] = verdict
 			rep["replay_output"] = out
